@@ -14,6 +14,14 @@ Proof.
     [exact H0|exact (H1 a)|exact (H2 a b)|exact (H3 a b c r (IH r))].
 Qed.
 
+Lemma list_ind4 {A} (P : list A -> Prop) :
+  P [] -> (forall a, P [a]) -> (forall a b, P [a; b]) -> (forall a b c, P [a; b; c]) ->
+  (forall a b c d r, P r -> P (a :: b :: c :: d :: r)) -> forall l, P l.
+Proof.
+  intros H0 H1 H2 H3 H4. fix IH 1. intros [|a [|b [|c [|d r]]]];
+    [exact H0|exact (H1 a)|exact (H2 a b)|exact (H3 a b c)|exact (H4 a b c d r (IH r))].
+Qed.
+
 Lemma list_ind5 {A} (P : list A -> Prop) :
   P [] -> (forall a, P [a]) -> (forall a b, P [a; b]) -> (forall a b c, P [a; b; c]) ->
   (forall a b c d, P [a; b; c; d]) ->
